@@ -2103,6 +2103,391 @@ def gen_b3sum_literals():
     return "".join(out)
 
 
+
+# ---------------------------------------------------------------------------
+# GenPortable.v: the portable compression function of src/portable.rs and c/blake3_portable.c,
+# translated statement by statement (order, indices and rotation constants are the source's).
+# Arrays are `list N` (Base/Arr.v: arr_get / arr_set / arr_store / arr_slice); u32 `wrapping_add`, C `+` on
+# uint32_t -> add32; `^` -> xor32; `rotate_right(n)` -> rotr32; C `rotr32(x, n)` -> the translated c_rotr32;
+# u32::from_le_bytes / load32 -> le_load32; to_le_bytes / store32 -> bytes_of_word (Base/Word.v).
+# Every statement of a translated body must match one of the recognised shapes: anything else is an AnchorError.
+# ---------------------------------------------------------------------------
+def _p_split_top(text, sep):
+    """split at `sep` outside (), [], {}"""
+    parts, depth, cur = [], 0, ""
+    for ch in text:
+        if ch in "([{":
+            depth += 1
+        elif ch in ")]}":
+            depth -= 1
+        if ch == sep and depth == 0:
+            parts.append(cur)
+            cur = ""
+        else:
+            cur += ch
+    parts.append(cur)
+    return parts
+
+
+def _fn_header(text, header_re, name):
+    """(parameter text, text between the closing ')' and '{') of the first item whose header (ending in '(') matches"""
+    m = find1(header_re, text, name)
+    i = m.end() - 1
+    if text[i] != "(":
+        raise AnchorError(f"{name}: header pattern must end at '('")
+    depth, j = 0, i
+    while j < len(text):
+        if text[j] == "(":
+            depth += 1
+        elif text[j] == ")":
+            depth -= 1
+            if depth == 0:
+                break
+        j += 1
+    else:
+        raise AnchorError(f"{name}: unbalanced parentheses")
+    k = text.find("{", j)
+    if k < 0:
+        raise AnchorError(f"{name}: no body")
+    return text[i + 1:j], text[j + 1:k].strip()
+
+
+_IDENT = r"[A-Za-z_][A-Za-z0-9_]*"
+
+
+class PFn:
+    """One translated function.  kind[v] in {'arr','nat','word'}; `mut` = assignable arrays; `uninit` = C locals
+    declared without initialiser -> indices not yet assigned."""
+
+    def __init__(self, lang, coqname, text, header_re, consts, callees):
+        self.lang, self.name, self.consts, self.callees = lang, coqname, consts, callees
+        params, self.ret = _fn_header(text, header_re, coqname)
+        self.body = fn_body(text, header_re, coqname)
+        self.kind, self.width, self.mut, self.order, self.uninit = {}, {}, set(), [], {}
+        self.lines = []
+        for p in _p_split_top(params, ","):
+            p = " ".join(p.split())
+            if p:
+                self._param(p)
+
+    def err(self, msg):
+        return AnchorError(f"{self.name}: {msg}")
+
+    # ---- signature ----
+    def _param(self, p):
+        if self.lang == "rs":
+            m = re.fullmatch(r"(%s)\s*:\s*(.+)" % _IDENT, p)
+            if not m:
+                raise self.err(f"parameter {p!r}")
+            v, ty = m.group(1), m.group(2).strip()
+            ma = re.fullmatch(r"&\s*(mut\s+)?(\[\s*(?:u8|u32)\s*;\s*\w+\s*\]|CVWords)", ty)
+            if ma:
+                self._decl(v, "arr", mutable=bool(ma.group(1)))
+            elif ty == "usize":
+                self._decl(v, "nat")
+            elif ty in ("u8", "u32", "u64"):
+                self._decl(v, "word", TYPES[ty])
+            else:
+                raise self.err(f"parameter type {ty!r}")
+        else:
+            m = re.fullmatch(r"(const\s+)?(uint8_t|uint32_t|uint64_t|size_t)\s*(\*)?\s*(%s)\s*(\[\s*\w*\s*\])?" % _IDENT, p)
+            if not m:
+                raise self.err(f"parameter {p!r}")
+            const, ty, star, v, arr = m.groups()
+            if star or arr:
+                if ty not in ("uint8_t", "uint32_t"):
+                    raise self.err(f"parameter {p!r}")
+                self._decl(v, "arr", mutable=not const)
+            elif ty == "size_t":
+                self._decl(v, "nat")
+            else:
+                self._decl(v, "word", TYPES[ty])
+        self.order.append(v)
+
+    def _decl(self, v, kind, width=None, mutable=False):
+        if v in self.consts:
+            raise self.err(f"{v} shadows a constant")
+        self.kind[v] = kind
+        self.mut.discard(v)
+        self.uninit.pop(v, None)
+        if width:
+            self.width[v] = width
+        if mutable:
+            self.mut.add(v)
+
+    # ---- expressions ----
+    def arr_name(self, ast, reading=True):
+        if ast[0] != "var":
+            raise self.err(f"not an array: {ast!r}")
+        v = ast[1]
+        if self.kind.get(v) == "arr":
+            if reading and self.uninit.get(v):
+                raise self.err(f"{v} read before all of its elements are assigned")
+            return v
+        if v in self.consts and v not in self.kind:
+            return self.consts[v]
+        raise self.err(f"unknown array {v}")
+
+    def idx(self, ast):
+        """index expression -> Gallina term of type nat"""
+        k = ast[0]
+        if k == "num":
+            return f"{ast[1]}%nat"
+        if k == "var" and self.kind.get(ast[1]) == "nat":
+            return ast[1]
+        if k == "index":
+            return f"(N.to_nat (arr_get {self.arr_name(ast[1])} {self.idx(ast[2])}))"
+        if k == "bin" and ast[1] in ("*", "+"):
+            return f"{const_eval(ast, {}, self.name)}%nat"
+        raise self.err(f"index expression {ast!r}")
+
+    def word(self, ast):
+        """u32 expression -> Gallina term of type N"""
+        k = ast[0]
+        rs, c = self.lang == "rs", self.lang == "c"
+        if k == "var" and self.kind.get(ast[1]) == "word":
+            return ast[1]
+        if k == "index":
+            return f"(arr_get {self.arr_name(ast[1])} {self.idx(ast[2])})"
+        if k == "bin" and ast[1] == "^":
+            return f"(xor32 {self.word(ast[2])} {self.word(ast[3])})"
+        if c and k == "bin" and ast[1] == "+":
+            return f"(add32 {self.word(ast[2])} {self.word(ast[3])})"
+        if rs and k == "meth" and ast[2] == "wrapping_add" and len(ast[3]) == 1:
+            return f"(add32 {self.word(ast[1])} {self.word(ast[3][0])})"
+        if rs and k == "meth" and ast[2] == "rotate_right" and len(ast[3]) == 1 and ast[3][0][0] == "num":
+            return f"(rotr32 {self.word(ast[1])} {ast[3][0][1]})"
+        if c and k == "call" and ast[1] == "rotr32" and len(ast[2]) == 2 and ast[2][1][0] == "num":
+            return f"(res_val ({self.callees['rotr32']} {self.word(ast[2][0])} {ast[2][1][1]}))"
+        if k == "call" and ast[1] in ("counter_low", "counter_high") and len(ast[2]) == 1 \
+                and ast[2][0][0] == "var" and self.width.get(ast[2][0][1]) == 64:
+            return f"(res_val ({self.callees[ast[1]]} {ast[2][0][1]}))"
+        if k == "cast" and ast[1] == 32 and ast[2][0] == "var" and self.width.get(ast[2][1], 99) <= 32:
+            return ast[2][1]            # zero extension of a narrower unsigned value
+        if c and k == "call" and ast[1] == "load32" and len(ast[2]) == 1:
+            a = ast[2][0]
+            if a[0] == "bin" and a[1] == "+" and a[2][0] == "var":
+                return f"(le_load32 (skipn {const_eval(a[3], {}, self.name)}%nat {self.arr_name(a[2])}))"
+        raise self.err(f"cannot translate expression {ast!r}")
+
+    # ---- statements ----
+    def let(self, v, term):
+        self.lines.append(f"  let {v} := {term} in")
+
+    def assigned(self, v, index_ast):
+        if v not in self.mut:
+            raise self.err(f"assignment to {v}, which is not a mutable array")
+        if v in self.uninit and index_ast[0] == "num":
+            self.uninit[v].discard(index_ast[1])
+
+    def stmt(self, s):
+        s = " ".join(s.split())
+        rs = self.lang == "rs"
+        pe = lambda t: parse_expr(t, self.name)
+        # a[i] = e ;  a[i] ^= e
+        m = re.fullmatch(r"(%s)\[([^\]]+)\]\s*(\^=|=)\s*([^=].*)" % _IDENT, s)
+        if m:
+            v, i_ast, op, rhs = m.group(1), pe(m.group(2)), m.group(3), m.group(4)
+            if self.kind.get(v) != "arr":
+                raise self.err(f"assignment to unknown array {v}")
+            i = self.idx(i_ast)
+            mb = re.fullmatch(r"u32::from_le_bytes\(\s*\*\s*array_ref!\(\s*(%s)\s*,\s*(.+?)\s*,\s*4\s*\)\s*\)" % _IDENT, rhs)
+            if rs and mb and op == "=":
+                val = f"(le_load32 (arr_slice {self.arr_name(('var', mb.group(1)))} {self.idx(pe(mb.group(2)))} 4))"
+            else:
+                val = self.word(pe(rhs))
+            if op == "^=":
+                val = f"(xor32 (arr_get {self.arr_name(('var', v))} {i}) {val})"
+            self.assigned(v, i_ast)
+            return self.let(v, f"arr_set {v} {i} {val}")
+        # g(state, a, b, c, d, x, y)
+        m = re.fullmatch(r"g\((.*)\)", s)
+        if m:
+            ast = pe(s)
+            if ast[0] != "call" or len(ast[2]) != 7 or ast[2][0][0] != "var":
+                raise self.err(f"call of g: {s!r}")
+            v = ast[2][0][1]
+            self.arr_name(ast[2][0])
+            self.assigned(v, ("none",))
+            args = [self.idx(a) for a in ast[2][1:5]] + [self.word(a) for a in ast[2][5:7]]
+            return self.let(v, f"{self.callees['g']} {v} " + " ".join(args))
+        # round(&mut state, &block_words, r) ; round_fn(state, &block_words[0], r)
+        m = re.fullmatch((r"round\(\s*&mut (%s)\s*,\s*&\s*(%s)\s*,\s*(\d+)\s*\)" if rs else
+                          r"round_fn\(\s*(%s)\s*,\s*&\s*(%s)\[0\]\s*,\s*(\d+)\s*\)") % (_IDENT, _IDENT), s)
+        if m:
+            v, w, r = m.groups()
+            self.arr_name(("var", v))
+            self.assigned(v, ("none",))
+            return self.let(v, f"{self.callees['round']} {v} {self.arr_name(('var', w))} {int(r)}%nat")
+        # schedule row
+        m = re.fullmatch((r"let (%s) = MSG_SCHEDULE\[(%s)\]" if rs else
+                          r"const uint8_t \*\s*(%s) = MSG_SCHEDULE\[(%s)\]") % (_IDENT, _IDENT), s)
+        if m:
+            v, r = m.groups()
+            term = f"nth {self.idx(('var', r))} {self.consts['MSG_SCHEDULE']} []"
+            self._decl(v, "arr")
+            return self.let(v, term)
+        if rs:
+            # let [mut] v = [e0, e1, ...]  /  [0; n]
+            m = re.fullmatch(r"let (mut )?(%s) = \[(.*)\]" % _IDENT, s)
+            if m:
+                v, inner = m.group(2), m.group(3)
+                mr = re.fullmatch(r"\s*0\s*;\s*(\d+)\s*", inner)
+                if mr:
+                    term = f"repeat 0 {int(mr.group(1))}%nat"
+                else:
+                    if ";" in inner:
+                        raise self.err(f"array expression {s!r}")
+                    items = [x for x in _p_split_top(inner, ",")]
+                    if items and not items[-1].strip():
+                        items.pop()
+                    term = "[" + "; ".join(self.word(pe(x)) for x in items) + "]"
+                self._decl(v, "arr", mutable=bool(m.group(1)))
+                return self.let(v, term)
+            # let v = words_from_le_bytes_64(block)
+            m = re.fullmatch(r"let (%s) = crate::platform::words_from_le_bytes_64\((%s)\)" % (_IDENT, _IDENT), s)
+            if m:
+                term = f"{self.callees['words_from_le_bytes_64']} {self.arr_name(('var', m.group(2)))}"
+                self._decl(m.group(1), "arr")
+                return self.let(m.group(1), term)
+            # let [mut] v = compress_pre(cv, block, block_len, counter, flags)
+            m = re.fullmatch(r"let (mut )?(%s) = compress_pre\((.*)\)" % _IDENT, s)
+            if m:
+                term = f"{self.callees['compress_pre']} " + " ".join(self.arg(a) for a in _p_split_top(m.group(3), ","))
+                self._decl(m.group(2), "arr", mutable=bool(m.group(1)))
+                return self.let(m.group(2), term)
+            # *array_mut_ref!(out, off, 4) = words[i].to_le_bytes()
+            m = re.fullmatch(r"\*\s*array_mut_ref!\(\s*(%s)\s*,\s*(.+?)\s*,\s*4\s*\) = (.+)\.to_le_bytes\(\)" % _IDENT, s)
+            if m:
+                v = m.group(1)
+                self.arr_name(("var", v))
+                self.assigned(v, ("none",))
+                return self.let(v, f"arr_store {v} {self.idx(pe(m.group(2)))} (bytes_of_word {self.word(pe(m.group(3)))})")
+        else:
+            # uint32_t v[n]   (no initialiser)
+            m = re.fullmatch(r"uint32_t (%s)\[(\d+)\]" % _IDENT, s)
+            if m:
+                v, n = m.group(1), int(m.group(2))
+                self._decl(v, "arr", mutable=True)
+                self.uninit[v] = set(range(n))
+                return self.let(v, f"repeat 0 {n}%nat")
+            # compress_pre(state, cv, block, block_len, counter, flags): overwrites all of `state`
+            m = re.fullmatch(r"compress_pre\((.*)\)", s)
+            if m:
+                args = [a.strip() for a in _p_split_top(m.group(1), ",")]
+                v = args[0]
+                if self.kind.get(v) != "arr":
+                    raise self.err(f"call of compress_pre: {s!r}")
+                self.assigned(v, ("none",))
+                self.uninit.pop(v, None)
+                return self.let(v, f"{self.callees['compress_pre']} " + " ".join(self.arg(a) for a in args))
+            # store32(&out[off], e)
+            m = re.fullmatch(r"store32\(\s*&\s*(%s)\[([^\]]+)\]\s*,\s*(.+)\)" % _IDENT, s)
+            if m:
+                v = m.group(1)
+                self.arr_name(("var", v))
+                self.assigned(v, ("none",))
+                return self.let(v, f"arr_store {v} {self.idx(pe(m.group(2)))} (bytes_of_word {self.word(pe(m.group(3)))})")
+        raise self.err(f"unrecognised statement {s!r}")
+
+    def arg(self, a):
+        a = a.strip()
+        if not re.fullmatch(_IDENT, a) or a not in self.kind:
+            raise self.err(f"argument {a!r}")
+        return self.arr_name(("var", a)) if self.kind[a] == "arr" else a
+
+    def translate(self):
+        params = [(v, self.kind[v]) for v in self.order]     # before local declarations shadow anything
+        mut_params = [v for v in self.order if v in self.mut]
+        stmts = _p_split_top(self.body, ";")
+        tail = " ".join(stmts.pop().split())
+        for s in stmts:
+            if not s.strip():
+                raise self.err("empty statement")
+            self.stmt(s)
+        returns = self.ret.startswith("->") if self.lang == "rs" else False
+        if returns:
+            m = re.fullmatch(r"crate::platform::le_bytes_from_words_64\(\s*&\s*(%s)\s*\)" % _IDENT, tail)
+            if m:
+                result = f"{self.callees['le_bytes_from_words_64']} {self.arr_name(('var', m.group(1)))}"
+            elif re.fullmatch(_IDENT, tail) and self.kind.get(tail) == "arr":
+                result = self.arr_name(("var", tail))
+            else:
+                raise self.err(f"result expression {tail!r}")
+        else:
+            if tail or self.ret not in ("",) or len(mut_params) != 1:
+                raise self.err(f"expected one mutable parameter and no result (tail {tail!r}, ret {self.ret!r})")
+            result = self.arr_name(("var", mut_params[0]))
+        ty = {"arr": "list N", "nat": "nat", "word": "N"}
+        sig = " ".join(f"({v} : {ty[k]})" for v, k in params)
+        return f"Definition {self.name} {sig} : list N :=\n" + "\n".join(self.lines) + f"\n  {result}.\n"
+
+
+def _c_return_formula(text, fname, params, coqname):
+    """`INLINE uint32_t f(params) { return e; }` -> Definition coqname (...) : res N, through the integer-formula emitter"""
+    hdr = r"INLINE\s+uint32_t\s+" + fname + r"\s*\("
+    ptext, _ = _fn_header(text, hdr, coqname)
+    want = ", ".join(f"{t} {v}" for v, t in params)
+    if " ".join(ptext.split()) != want:
+        raise AnchorError(f"{coqname}: parameters {ptext!r}, expected {want!r}")
+    stmts = [s.strip() for s in _p_split_top(fn_body(text, hdr, coqname), ";") if s.strip()]
+    if len(stmts) != 1 or not stmts[0].startswith("return "):
+        raise AnchorError(f"{coqname}: body is not a single return")
+    tenv = {v: TYPES[t] for v, t in params}
+    term = emit(parse_expr(stmts[0][len("return "):], coqname), tenv, {}, coqname, 32)
+    return f"Definition {coqname} ({' '.join(v for v, _ in params)} : N) : res N :=\n  {term}.\n"
+
+
+def gen_portable():
+    out = [HEADER.replace("Base.MachInt.", "Base.MachInt Base.Word Base.Arr.\nFrom V Require Import gen.GenConsts gen.GenFormulas.")]
+    rs = strip_comments(src("src/portable.rs"))
+    plat = strip_comments(src("src/platform.rs"))
+    lib = strip_comments(src("src/lib.rs"))
+    cp = strip_comments(src("c/blake3_portable.c"))
+    ch = strip_comments(src("c/blake3_impl.h"))
+
+    # the names portable.rs uses are the crate's (lib.rs) items GenConsts / GenFormulas translate
+    use = find1(r"use\s+crate::\{(.*?)\};", rs, "portable.rs use crate::{..}").group(1)
+    used = {x.strip() for x in use.split(",")}
+    for need in ("IV", "MSG_SCHEDULE", "CVWords", "counter_low", "counter_high", "BLOCK_LEN"):
+        if need not in used:
+            raise AnchorError(f"portable.rs does not import crate::{need}")
+    find1(r"\btype\s+CVWords\s*=\s*\[\s*u32\s*;\s*8\s*\]\s*;", lib, "lib.rs type CVWords = [u32; 8]")
+
+    out.append("(* ---- src/platform.rs: byte <-> word conversions used by portable.rs ---- *)\n")
+    rs_consts = {"IV": "rs_IV", "MSG_SCHEDULE": "rs_MSG_SCHEDULE"}
+    rs_callees = {"counter_low": "rs_counter_low", "counter_high": "rs_counter_high"}
+    for fname in ("words_from_le_bytes_64", "le_bytes_from_words_64"):
+        f = PFn("rs", "rs_" + fname, plat, r"\bpub\s+fn\s+" + fname + r"\s*\(", {}, {})
+        out.append(f.translate())
+        rs_callees[fname] = "rs_" + fname
+
+    out.append("(* ---- src/portable.rs ---- *)\n")
+    for fname, hdr in (("g", r"\bfn\s+g\s*\("), ("round", r"\bfn\s+round\s*\("),
+                       ("compress_pre", r"\bfn\s+compress_pre\s*\("),
+                       ("compress_in_place", r"\bpub\s+fn\s+compress_in_place\s*\("),
+                       ("compress_xof", r"\bpub\s+fn\s+compress_xof\s*\(")):
+        f = PFn("rs", "rs_" + fname, rs, hdr, rs_consts, rs_callees)
+        out.append(f.translate())
+        rs_callees[fname] = "rs_" + fname
+
+    out.append("(* ---- c/blake3_impl.h, c/blake3_portable.c ---- *)\n")
+    out.append(_c_return_formula(ch, "counter_low", [("counter", "uint64_t")], "c_counter_low"))
+    out.append(_c_return_formula(ch, "counter_high", [("counter", "uint64_t")], "c_counter_high"))
+    out.append(_c_return_formula(cp, "rotr32", [("w", "uint32_t"), ("c", "uint32_t")], "c_rotr32"))
+    c_consts = {"IV": "c_IV", "MSG_SCHEDULE": "c_MSG_SCHEDULE"}
+    c_callees = {"counter_low": "c_counter_low", "counter_high": "c_counter_high", "rotr32": "c_rotr32"}
+    for fname, key, hdr in (("g", "g", r"\bINLINE\s+void\s+g\s*\("), ("round_fn", "round", r"\bINLINE\s+void\s+round_fn\s*\("),
+                            ("compress_pre", "compress_pre", r"\bINLINE\s+void\s+compress_pre\s*\("),
+                            ("blake3_compress_in_place_portable", None, r"\bvoid\s+blake3_compress_in_place_portable\s*\("),
+                            ("blake3_compress_xof_portable", None, r"\bvoid\s+blake3_compress_xof_portable\s*\(")):
+        f = PFn("c", "c_" + fname, cp, hdr, c_consts, c_callees)
+        out.append(f.translate())
+        if key:
+            c_callees[key] = "c_" + fname
+    return "\n".join(out)
+
+
 def write_if_changed(path, text):
     try:
         with open(path) as f:
@@ -2217,7 +2602,7 @@ def gen_globals(c_objects, rs_archives, rs_crate="blake3", hook_prefixes=()):
 GENERATORS = [("GenConsts.v", gen_consts), ("GenFormulas.v", gen_formulas), ("GenTestVectors.v", gen_test_vectors),
               ("GenDispatch.v", gen_dispatch),
               ("GenAsmFrames.v", gen_asm_frames),
-              ("GenApi.v", gen_api), ("GenB3sum.v", gen_b3sum_literals),
+              ("GenApi.v", gen_api), ("GenB3sum.v", gen_b3sum_literals), ("GenPortable.v", gen_portable),
               ("GenCounters.v", gen_counters)]
 
 
